@@ -8,14 +8,17 @@ namespace coloquinte {
 DetailedPlacement DetailedPlacement::fromIspdCircuit(const Circuit &circuit) {
   // Represent fixed cells with -1 width so they are not considered
   int rowHeight = circuit.rowHeight();
-  std::vector<int> widths = circuit.cellWidth_;
+  // Use the size of the cells as placed: turned cells exchange width and height
+  std::vector<int> widths;
+  widths.reserve(circuit.nbCells());
   std::vector<Rectangle> obstacles;
   for (int c = 0; c < circuit.nbCells(); ++c) {
+    widths.push_back(circuit.placedWidth(c));
     if (circuit.cellIsFixed_[c]) {
       // Fixed cells are not optimized; the ones that are obstructions are
       // already removed from the rows
       widths[c] = -1;
-    } else if (circuit.cellHeight_[c] != rowHeight) {
+    } else if (circuit.placedHeight(c) != rowHeight) {
       widths[c] = -1;
       Rectangle pl = circuit.placement(c);
       obstacles.push_back(pl);
